@@ -75,7 +75,7 @@ def split_uri(uri: str) -> [str, Union[dict, None]]:
     if p.query:
         o = p._replace(query="")
         base = urlunsplit(o)
-        return [base, parse_qs(p.query)]
+        return [base, parse_qs(p.query, keep_blank_values=True)]
     else:
         base = urlunsplit(p)
         return [base, None]
